@@ -38,7 +38,15 @@ def main():
     # case of the property oracle, not an infrastructure failure: on the unchanged tree no oracle raises
     _orig_run_case = mod.run_case
 
+    crumb = os.environ.get("VERIF_CRUMB")
+
     def _guarded_run_case(kind, params):
+        if crumb:   # breadcrumb for the supervising process: the case being evaluated, should the interpreter die
+            try:
+                with open(crumb, "w") as fh:
+                    json.dump({"phase": "search", "kind": kind, "params": common.jsonable(params)}, fh)
+            except Exception:  # noqa: BLE001
+                pass
         try:
             return _orig_run_case(kind, params)
         except Exception as e:  # noqa: BLE001
@@ -85,8 +93,14 @@ def main():
         if drv.error:
             drv_error = drv.error
             log(f"[{a.prop}]   {drv_error}")
+    if crumb:
+        with open(crumb, "w") as fh:
+            json.dump({"phase": "corr"}, fh)
+    if os.environ.get("VERIF_SKIP_CORR"):
+        drv_error = ("the correspondence run killed the interpreter (" + os.environ["VERIF_SKIP_CORR"] +
+                     "): an out-of-bounds access or abort inside the implementation")
     try:
-        if drv is None or drv.error is None:
+        if (drv is None or drv.error is None) and not os.environ.get("VERIF_SKIP_CORR"):
             mod.corr(ctx, drv)
     except Exception as e:
         drv_error = f"correspondence run crashed: {type(e).__name__}: {e}"
@@ -148,7 +162,77 @@ def main():
     return rc
 
 
+def supervise():
+    """Run the check in a child interpreter.  If the implementation kills the child (segfault / abort after an
+    out-of-bounds write, ...), that is not an infrastructure failure: the case being evaluated is a failing input."""
+    import subprocess
+    import tempfile
+    fd, crumb = tempfile.mkstemp(prefix="verif-crumb-", suffix=".json")
+    os.close(fd)
+    env = dict(os.environ, VERIF_CHILD="1", VERIF_CRUMB=crumb)
+    try:
+        for attempt in range(2):
+            pr = subprocess.run([sys.executable] + sys.argv, env=env)
+            rc = pr.returncode
+            if rc in (0, 1, 2):
+                return rc
+            try:
+                with open(crumb) as fh:
+                    info = json.load(fh)
+            except Exception:  # noqa: BLE001
+                info = {}
+            how = f"signal {-rc}" if rc < 0 else f"exit status {rc}"
+            if info.get("phase") == "corr" and attempt == 0:
+                log(f"[supervisor] the interpreter died during the correspondence run ({how}); re-running the search only")
+                env["VERIF_SKIP_CORR"] = how
+                continue
+            prop = [a for a in sys.argv[1:] if not a.startswith("-")][0]
+            tier = "thorough" if "thorough" in sys.argv else os.environ.get("VERIF_TIER", "quick")
+            tier = "thorough" if tier == "thorough" else "quick"
+            seed = int(os.environ.get("VERIF_SEED", "0") or 0)
+            ctx = common.Ctx(prop, tier, seed)
+            if info.get("phase") == "search" and "kind" in info:
+                msg = f"the interpreter was killed ({how}) while the implementation processed this input"
+                path = common.write_replay(ctx, "input", {"kind": "impl-violation", "case": {"kind": info["kind"], "params": info["params"]},
+                                                          "messages": [msg], "others": 0, "broken": None})
+                print(f"VIOLATION property={prop} replay={path}")
+                print("  " + msg)
+            else:
+                path = common.write_replay(ctx, "tie", {"kind": "tie-break", "broken": {"driver": f"check process died ({how})"}})
+                print(f"VIOLATION property={prop} replay={path} no-failing-input-found")
+            os.makedirs(common.EVID, exist_ok=True)
+            with open(os.path.join(common.EVID, f"{prop}.json"), "w") as fh:
+                json.dump({"property_id": prop, "tier": tier, "seed": seed, "level": "proof",
+                           "coverage": {"obligations": 0, "discharged": 0, "evaluations": 0, "distinct_nontrivial": 0,
+                                        "rule": "the check's interpreter was killed by the implementation; see the replay file",
+                                        "samples": [info], "checker_cmd": "", "trusted_base": common.TRUSTED_BASE},
+                           "assumptions": [], "wall_s": round(ctx.elapsed(), 2), "violations": 1}, fh, indent=1)
+            return 1
+        return 2
+    finally:
+        try:
+            os.unlink(crumb)
+        except OSError:
+            pass
+
+
 if __name__ == "__main__":
+    if not os.environ.get("VERIF_CHILD") and "--replay" in sys.argv:
+        import subprocess
+        rc_ = subprocess.run([sys.executable] + sys.argv, env=dict(os.environ, VERIF_CHILD="1")).returncode
+        if rc_ not in (0, 1, 2):
+            print(f"FAIL: the interpreter was killed (status {rc_}) while the implementation processed the replayed input")
+            print("replay: property violated")
+            rc_ = 1
+        sys.exit(rc_)
+    if not os.environ.get("VERIF_CHILD"):
+        try:
+            sys.exit(supervise())
+        except SystemExit:
+            raise
+        except Exception:
+            traceback.print_exc()
+            sys.exit(2)
     try:
         sys.exit(main())
     except SystemExit:
